@@ -104,7 +104,12 @@ def check_one(kind, n, k, full=True):
 
 
 def run_case(case):
-    return check_one(case['kind'], case['n'], case['k'], case.get('full', True))
+    try:
+        return check_one(case['kind'], case['n'], case['k'], case.get('full', True))
+    except Violation:
+        raise
+    except Exception as e:
+        raise Violation('shard-access-raised', f'{case}: {type(e).__name__}: {e}')
 
 
 def replay(case):
